@@ -12,7 +12,8 @@ RULE = ("per entropy size: all-zero, all-one, every single-bit value and its com
         "every word slot x every 11-bit word value (256-bit size; thorough: all five sizes); every illegal byte length 0..64 in "
         "lower and upper case hex; whitespace-bearing hex of the legal sizes; the word list entry by entry. Oracle: words decoded "
         "through the pinned official list give entropy || SHA-256 prefix; illegal sizes raise. non-trivial = sentence decoded and "
-        "compared bit for bit, or refusal observed; distinct by construction")
+        "compared bit for bit, or refusal observed; distinct by construction"
+        "; the last word taking every value 0..2047 for every size; the generating entry points under a scripted OS source with cornered drawn bytes (leading zero bytes, every first-byte value)")
 
 
 def _bip39():
